@@ -130,6 +130,13 @@ def gen_solver_plan(seed, tier, prop, knobs=None):
                      'CR': rng.choice([0.0, 0.3, 0.5, 0.9, 1.0]), 'F': rng.choice([0.4, 0.8, 1.2])}})
     if rng.random() < k['p_handler']:
         conf.append({'op': 'set', 'what': 'handler', 'arg': True})
+    if solver == 'DE2' and rng.random() < k.get('p_mapper', 0.3):
+        # a user-supplied map: item order, threads under the baton scheduler, or a process boundary (arguments and results
+        # are copies, as with a process pool)
+        m = rng.choice([{'mode': 'serial'}, {'mode': 'reversed'}, {'mode': 'shuffled'}, {'mode': 'process'}, {'mode': 'process'},
+                        {'mode': 'threads', 'workers': rng.choice([1, 2, 4])}])
+        conf.append({'op': 'set', 'what': 'mapper', 'arg': dict(m, salt=0)})
+        plan['map'] = m['mode']
     head, tail = conf[:1], conf[1:]
     rng.shuffle(tail)
     if bounds and rng.random() < k.get('p_reject', 0.0):
@@ -242,8 +249,9 @@ def run_solver_plan(plan, oracle_classes, hang_is=None, budget=None):
                     r = h.do(op)
                     if r.get('exc') == 'KeyboardInterrupt':
                         break         # Ctrl-C with no handler installed: the user's program ends here
-                    if r.get('exc') == 'SimFault':
+                    if r.get('exc') == 'SimFault' and not plan.get('continue_after_fault'):
                         break         # an injected I/O error reached the caller: the user's program ends here
+                    # (continue_after_fault: the caller handles the failure of its cost function and carries on)
             except env.SimHang as e:
                 if hang_is:
                     h.violate(hang_is[0], hang_is[1], detail=str(e))
